@@ -255,7 +255,7 @@ func (rn *run) checkFile(cfg config) {
 			return pdf.Dict{"Type": pdf.Name("EmbeddedFile"), "Params": pdf.Dict{"CheckSum": fresh(m4)}}
 		}, append([]byte{}, m4...))
 		put(w.Alloc(), func() pdf.Object {
-			return pdf.Dict{"Filter": pdf.Name("Standard"), "V": pdf.Integer(4), "R": pdf.Integer(4), "O": fresh(o32), "U": fresh(o32), "P": pdf.Integer(-44),
+			return pdf.Dict{"Filter": pdf.Name("Standard"), "V": pdf.Integer(4), "R": pdf.Integer(4), "O": fresh(o32), "U": fresh(o32), "P": pdf.Integer(-3),
 				"Sig": pdf.Dict{"Type": pdf.Name("Sig"), "Filter": pdf.Name("Adobe.PPKLite"), "Contents": fresh(m6), "ByteRange": pdf.Array{pdf.Integer(0), pdf.Integer(1)}},
 				"ID": pdf.Array{fresh(id0), fresh(id0), fresh(m7)}}
 		})
